@@ -25,6 +25,7 @@ var table = map[string]entry{
 	"C08": {"exploration", checks.C08},
 	"C09": {"exploration", checks.C09},
 	"C10": {"exploration", checks.C10},
+	"C11": {"exploration", checks.C11},
 	"C12": {"exploration", checks.C12},
 	"C13": {"exploration", checks.C13},
 	"C14": {"exploration", checks.C14},
